@@ -247,6 +247,15 @@ func c10RefServer13(rc *RunCtx, p *C10Params, cfg DataCfg) {
 	n := NewSimNet(s, NetRules{})
 	// in half of the runs the reference server asks for a client certificate and checks the
 	// client's Certificate / CertificateVerify / Finished against its own computation
+	// a third of the runs use the SHA-384 suite, half start with a HelloRetryRequest (cookie)
+	if (len(p.Sizes)+2*p.Forge)%3 == 0 {
+		cfg.C.Suites, cfg.S.Suites = []uint16{suite13AES256}, []uint16{suite13AES256}
+		rc.R.Class += "+sha384"
+	}
+	retry := (len(p.Sizes)/2+p.Forge)%2 == 0
+	if retry {
+		rc.R.Class += "+hrr"
+	}
 	clientAuth := (p.Forge+len(p.Sizes))%2 == 0
 	if clientAuth {
 		cfg.C.Cert = []string{"cli-ecdsa", "cli-ed25519"}[len(p.Sizes)%2]
@@ -261,6 +270,7 @@ func c10RefServer13(rc *RunCtx, p *C10Params, cfg DataCfg) {
 	defer pair.Teardown()
 	ref := NewRogue13(s, n, pair.SAddr, pair.CAddr)
 	ref.RequestClientCert = clientAuth
+	ref.Retry = retry
 	leaf := certPool.Leaf["srv-ecdsa"]
 	ref.Chain = leaf.Certificate
 	ref.Signer, _ = leaf.PrivateKey.(crypto.Signer)
@@ -307,6 +317,9 @@ func c10RefServer13(rc *RunCtx, p *C10Params, cfg DataCfg) {
 		s.Probe("client-certificate-verify-checked-by-reference-server")
 	}
 	s.Probe("client-finished-checked-by-reference-server")
+	if retry {
+		s.Probe("handshake-with-reference-server-after-hello-retry-request")
+	}
 	if st, okst := pair.Client.ConnectionState(); okst {
 		for li, label := range []string{"EXTRACTOR-dtls_srtp", "EXPERIMENTAL-verif"} {
 			ln := []int{47, 1, 32, 33, 48, 49, 64, 97, 255}[(len(p.Sizes)+li*4+p.Forge)%9]
